@@ -19,6 +19,7 @@
 (***************************************************************************)
 EXTENDS AkValue
 
+NaNCode            == -777     \* a float leaf holding NaN (instantiated as NaN by the replayer)
 Numpy(dt, d)       == [c |-> "Numpy", dt |-> dt, d |-> d]
 EmptyL             == [c |-> "Empty"]
 Regular(size, zl, x) == [c |-> "Regular", size |-> size, zl |-> zl, x |-> x]
@@ -128,7 +129,7 @@ TypeOf(L) ==
 RECURSIVE ToListS(_)
 ToListS(L) ==
   LET n == LLen(L) IN
-  CASE L.c = "Numpy" -> [k \in 1..n |-> VInt(L.d[k])]
+  CASE L.c = "Numpy" -> [k \in 1..n |-> IF L.d[k] = NaNCode THEN VNaN ELSE VInt(L.d[k])]
     [] L.c = "Empty" -> <<>>
     [] L.c = "Regular" ->
          LET c == ToListS(L.x) IN
